@@ -419,12 +419,38 @@ fn subst_opnd(o: &Opnd, args: &[Opnd], used_missing: &mut bool) -> Opnd {
     }
 }
 
+/// After substitution the addressing form of ld/st/ldd/std/lpm/elpm follows from the operand that was passed.
+fn fix_form(form: usize, ops: &[Opnd]) -> usize {
+    let f = &isa::forms()[form];
+    if !matches!(f.mn, "ld" | "st" | "ldd" | "std" | "lpm" | "elpm") {
+        return form;
+    }
+    for (i, cand) in isa::forms().iter().enumerate() {
+        if cand.mn != f.mn || cand.ops.len() != ops.len() {
+            continue;
+        }
+        let ok = cand.ops.iter().zip(ops).all(|(k, o)| match (k, o) {
+            (Opk::Index(a), Opnd::Idx(b)) => a == b,
+            (Opk::Disp { reg, .. }, Opnd::Disp(r, _)) => *reg == r.to_ascii_uppercase(),
+            (Opk::Reg { .. }, Opnd::Reg(_) | Opnd::Alias(_)) => true,
+            _ => false,
+        });
+        if ok {
+            return i;
+        }
+    }
+    form
+}
+
 fn subst_nodes(nodes: &[Node], args: &[Opnd], used_missing: &mut bool) -> Vec<Node> {
     let se = |e: &E, um: &mut bool| subst_expr(e, args, um, true).unwrap_or(E::Lit(0, 0));
     nodes
         .iter()
         .map(|n| match n {
-            Node::Instr { label, form, ops } => Node::Instr { label: label.clone(), form: *form, ops: ops.iter().map(|o| subst_opnd(o, args, used_missing)).collect() },
+            Node::Instr { label, form, ops } => {
+                let ops: Vec<Opnd> = ops.iter().map(|o| subst_opnd(o, args, used_missing)).collect();
+                Node::Instr { label: label.clone(), form: fix_form(*form, &ops), ops }
+            }
             Node::Data { label, width, ops } => Node::Data {
                 label: label.clone(),
                 width: *width,
